@@ -255,7 +255,7 @@ void model_fragment_header(const cfg_t *c, uint64_t len, int idx, const uint8_t 
     uint64_t P = ref_payload_size(c->be, c->k, len);
     h.idx = (uint32_t)idx; h.size = (uint32_t)P; h.bms = (uint32_t)ref_backend_metadata_bytes(c->be, P); h.orig = len;
     h.ct = (uint8_t)c->ct;
-    if (c->ct == CHKSUM_CRC32) h.chksum[0] = legacy ? crc_legacy(payload, P) : crc_std(payload, P);
+    if ((uint8_t)c->ct == CHKSUM_CRC32) h.chksum[0] = legacy ? crc_legacy(payload, P) : crc_std(payload, P);     /* the header keeps the low byte of the type */
     h.mismatch = 0; h.beid = (uint8_t)c->be; h.bever = lec_backend_version(c->be);
     h.magic = REF_MAGIC; h.libver = liberasurecode_get_version();
     ref_hdr_write(out, &h, legacy);
